@@ -171,7 +171,7 @@ func ruleC08(c *Ctx) {
 	checkSchemaTable(c, "C08-R1", schemaTable)
 
 	// R2
-	ri := c.kernel("(*SAMLServiceProvider).RetrieveAssertionInfo")
+	ri := c.kernel("(*SAMLServiceProvider).RetrieveAssertionInfo", retrieveInline...)
 	if ri != nil {
 		fname := shortFn(ri.Root)
 		resp := "(*SAMLServiceProvider).ValidateEncodedResponse(SP, $encodedResponse)#0"
@@ -227,6 +227,8 @@ func ruleC08(c *Ctx) {
 
 	// R3 accessors
 	accessors(c, "C08-R3")
+	c.rule("C08-R5", "a genuine response is judged against the CURRENT configuration: the validation context is built per call from sp.IDPCertificateStore and sp.Clock (shared with C02-R1) — a cached context rejects responses signed with a newly configured certificate")
+	ctxWiring(c, "C08-R5")
 
 	// R4 shared provenance / freshness
 	res := c.kernel(ssoSpec.Entry, inboundInline...)
@@ -282,7 +284,7 @@ func checkAppendFor(c *Ctx, rule string, t *Terminal, fname, label string, obj V
 }
 
 func accessors(c *Ctx, rule string) {
-	get := c.kernel("(Values).Get")
+	get := c.kernel("(Values).Get", "*")
 	if get != nil {
 		fname := shortFn(get.Root)
 		for _, t := range get.Terms {
@@ -303,7 +305,7 @@ func accessors(c *Ctx, rule string) {
 			}
 		}
 	}
-	gs := c.kernel("(Values).GetSize")
+	gs := c.kernel("(Values).GetSize", "*")
 	if gs != nil {
 		fname := shortFn(gs.Root)
 		for _, t := range gs.Terms {
@@ -320,7 +322,7 @@ func accessors(c *Ctx, rule string) {
 			}
 		}
 	}
-	ga := c.kernel("(Values).GetAll")
+	ga := c.kernel("(Values).GetAll", "*")
 	if ga != nil {
 		fname := shortFn(ga.Root)
 		nLoop := 0
@@ -423,7 +425,7 @@ func ruleC20(c *Ctx) {
 	// R2 + R3
 	type pd struct{ fn, typ string }
 	for _, p := range []pd{{"DecodeUnverifiedBaseResponse", "*types.UnverifiedBaseResponse"}, {"DecodeUnverifiedLogoutResponse", "*types.LogoutResponse"}} {
-		r := c.kernel(p.fn, "maybeDeflate")
+		r := c.kernel(p.fn, "*")
 		if r == nil {
 			continue
 		}
